@@ -211,8 +211,60 @@ impl Matcher {
         }
 
         let mut current = transactions[0].clone();
+        // Position (in the date-sorted input) of the last line folded into `current`: sales are
+        // merged only when they are adjacent lines, as before.
+        let mut current_pos = 0usize;
 
-        for next in transactions.into_iter().skip(1) {
+        for (pos, next) in transactions.into_iter().enumerate().skip(1) {
+            // All acquisitions of a security on one day are a single acquisition (TCGA92
+            // s105(1)(a)), even when a sale or lines for other securities were recorded between
+            // them: fold a purchase into an earlier, non-adjacent purchase of the same day.
+            if let Operation::Buy {
+                amount: next_amount,
+                price: next_price,
+                fees: next_fees,
+            } = &next.operation
+                && !(next.date == current.date
+                    && next.ticker == current.ticker
+                    && matches!(current.operation, Operation::Buy { .. }))
+                && let Some(earlier) = merged
+                    .iter_mut()
+                    .rev()
+                    .take_while(|tx| tx.date == next.date)
+                    .find(|tx| {
+                        tx.ticker == next.ticker && matches!(tx.operation, Operation::Buy { .. })
+                    })
+                && let Operation::Buy {
+                    amount,
+                    price,
+                    fees,
+                } = &mut earlier.operation
+            {
+                let total_cost = (*amount * *price) + (*next_amount * *next_price);
+                *amount += *next_amount;
+                if *amount != Decimal::ZERO {
+                    *price = total_cost / *amount;
+                }
+                *fees += *next_fees;
+                continue;
+            }
+
+            let adjacent = pos == current_pos + 1;
+            let mergeable = matches!(
+                (&current.operation, &next.operation),
+                (Operation::Buy { .. }, Operation::Buy { .. })
+            ) || (adjacent
+                && matches!(
+                    (&current.operation, &next.operation),
+                    (Operation::Sell { .. }, Operation::Sell { .. })
+                ));
+            if next.date == current.date && next.ticker == current.ticker && !mergeable {
+                merged.push(current);
+                current = next;
+                current_pos = pos;
+                continue;
+            }
+            current_pos = pos;
             if next.date == current.date && next.ticker == current.ticker {
                 match (&mut current.operation, next.operation) {
                     (
